@@ -16,6 +16,14 @@ if ! go build -overlay "$B/overlay/overlay.json" -o "$B/vcheck" ./cmd/vcheck 2> 
   cat "$B/build.log"
   echo "BUILD FAILED (check cannot run)"; exit 2
 fi
+if [ "$id" = c17 ]; then
+  # second, race-instrumented build of the same binary for the data-race pass
+  if go build -race -overlay "$B/overlay/overlay.json" -o "$B/vcheck-race" ./cmd/vcheck 2> "$B/build-race.log"; then
+    export VERIF_RACE_BIN="$VERIF_ROOT/$B/vcheck-race"
+  else
+    cat "$B/build-race.log"; echo "race build failed: data-race clause will not be checked"
+  fi
+fi
 if [ "$id" = replay ]; then "$B/vcheck" replay "$2"; exit $?; fi
 "$B/vcheck" "$id"
 exit $?
